@@ -1,3 +1,240 @@
-//! B. generated glyph programs (filled in below)
+//! B. FreeType's static `Round_*` / `SetSuperRound` (ttinterp.c) have no symbol to call, so they are
+//! reached the way a font reaches them: generated glyph programs executed by the linked FreeType
+//! interpreter.  One glyph per round state `(state opcode, selector)`, one point per distance:
+//!
+//!   SVTCA[y]                        ; projection and freedom vector = y axis (y moves are allowed
+//!                                   ;   in every hinting mode, also in v40 backward compatibility)
+//!   [PUSHW sel] <state opcode>      ; RTG / RTHG / RTDG / RDTG / RUTG / ROFF / SROUND / S45ROUND
+//!   for each point p:
+//!     PUSHW p ; <push d> ; ROUND[00] ; SCFS[]     ; y(p) := Round(d)
+//!
+//! Every point starts at y = 0, so after hinting `outline.points[p].y` IS FreeType's rounded value
+//! (an `FT_Pos`, 64 bit: nothing is truncated on the way out).  `<push d>` builds a 32-bit value from
+//! 16-bit pushes: `(d >> 16) * 0x4000 / 64 * 0x4000 / 64 + (d & 0xFFFF)` with MUL/ADD (exact).
+//!
+//! Correspondence: FreeType's value vs `ft.ropsr op sel d` (Model/FtRound.lean).
+//! Oracles: (1) the real skrifa handler (hook `round_ops`) returns the same value as the real FreeType
+//! interpreter; (2) the synthetic font drawn by skrifa's real hinter in every hinting mode equals
+//! FreeType's outline (run through the same whole-outline differential as the corpus).
 use crate::fvlib::common::*;
-pub fn run(_cfg: &Config, _s: &mut Session) {}
+use skrifa::outline::verif_hooks::hint_round_ops as hr;
+use write_fonts::tables::glyf::{Bbox, Contour, GlyfLocaBuilder, Glyph, SimpleGlyph};
+use write_fonts::tables::{head::Head, hhea::Hhea, hmtx::Hmtx, hmtx::LongMetric, maxp::Maxp};
+
+const PUSHW1: u8 = 0xB8;
+const ADD: u8 = 0x60;
+const MUL: u8 = 0x63;
+const ROUND: u8 = 0x68;
+const SCFS: u8 = 0x48;
+const SVTCA_Y: u8 = 0x00;
+
+fn pushw(code: &mut Vec<u8>, v: i16) {
+    code.push(PUSHW1);
+    code.extend_from_slice(&v.to_be_bytes());
+}
+
+/// 0 ≤ x ≤ 65535
+fn push_u16(code: &mut Vec<u8>, x: i32) {
+    if x <= 32767 {
+        pushw(code, x as i16);
+    } else {
+        pushw(code, (x / 2) as i16);
+        pushw(code, (x - x / 2) as i16);
+        code.push(ADD);
+    }
+}
+
+fn push_i32(code: &mut Vec<u8>, v: i32) {
+    if v >= -32768 && v <= 32767 {
+        pushw(code, v as i16);
+        return;
+    }
+    let hi = v >> 16; // floor, in i16
+    let lo = v & 0xFFFF;
+    pushw(code, hi as i16);
+    pushw(code, 0x4000);
+    code.push(MUL); // hi * 256
+    pushw(code, 0x4000);
+    code.push(MUL); // hi * 65536
+    push_u16(code, lo);
+    code.push(ADD);
+}
+
+pub struct StateGlyph {
+    pub op: u8,
+    pub sel: i32,
+    pub dists: Vec<i32>,
+}
+
+fn program(g: &StateGlyph) -> Vec<u8> {
+    let mut c = vec![SVTCA_Y];
+    if g.op == 0x76 || g.op == 0x77 {
+        push_i32(&mut c, g.sel);
+    }
+    c.push(g.op);
+    for (p, &d) in g.dists.iter().enumerate() {
+        pushw(&mut c, p as i16);
+        push_i32(&mut c, d);
+        c.push(ROUND);
+        c.push(SCFS);
+    }
+    c
+}
+
+pub fn build_font(glyphs: &[StateGlyph]) -> Vec<u8> {
+    let mut b = GlyfLocaBuilder::new();
+    b.add_glyph(&Glyph::Empty).unwrap();
+    let mut max_points = 0usize;
+    let mut max_ins = 0usize;
+    for g in glyphs {
+        let pts: Vec<_> = (0..g.dists.len())
+            .map(|i| read_fonts::tables::glyf::CurvePoint::on_curve(10 * i as i16, 0))
+            .collect();
+        let ins = program(g);
+        max_points = max_points.max(pts.len());
+        max_ins = max_ins.max(ins.len());
+        let glyph = SimpleGlyph {
+            bbox: Bbox { x_min: 0, y_min: 0, x_max: 10 * g.dists.len() as i16, y_max: 0 },
+            contours: vec![Contour::from(pts)],
+            instructions: ins,
+        };
+        b.add_glyph(&glyph).unwrap();
+    }
+    let (glyf, loca, fmt) = b.build();
+    let n = glyphs.len() as u16 + 1;
+    let head = Head { units_per_em: 1024, index_to_loc_format: fmt as i16, magic_number: 0x5F0F3CF5, ..Default::default() };
+    let maxp = Maxp {
+        num_glyphs: n,
+        max_points: Some(max_points as u16),
+        max_contours: Some(1),
+        max_composite_points: Some(0),
+        max_composite_contours: Some(0),
+        max_zones: Some(2),
+        max_twilight_points: Some(4),
+        max_storage: Some(4),
+        max_function_defs: Some(4),
+        max_instruction_defs: Some(0),
+        max_stack_elements: Some(64),
+        max_size_of_instructions: Some(max_ins as u16),
+        max_component_elements: Some(0),
+        max_component_depth: Some(0),
+    };
+    let hhea = Hhea { number_of_h_metrics: n, ascender: 800.into(), descender: (-200).into(), ..Default::default() };
+    let hmtx = Hmtx::new((0..n).map(|_| LongMetric::new(600, 0)).collect(), vec![]);
+    let mut fb = write_fonts::FontBuilder::new();
+    fb.add_table(&head).unwrap();
+    fb.add_table(&maxp).unwrap();
+    fb.add_table(&hhea).unwrap();
+    fb.add_table(&hmtx).unwrap();
+    fb.add_table(&glyf).unwrap();
+    fb.add_table(&loca).unwrap();
+    fb.build()
+}
+
+/// FreeType's y coordinates of every point of glyph `gid` after hinting with TARGET_MONO.
+fn freetype_points(face: &mut freetype::Face<Vec<u8>>, gid: u32) -> Option<Vec<i64>> {
+    use freetype::face::LoadFlag;
+    face.load_glyph(gid, LoadFlag::NO_BITMAP | LoadFlag::NO_AUTOHINT | LoadFlag::TARGET_MONO).ok()?;
+    let raw = face.glyph().raw();
+    let o = &raw.outline;
+    let n = o.n_points as usize;
+    let pts = unsafe { std::slice::from_raw_parts(o.points, n) };
+    Some(pts.iter().map(|p| p.y as i64).collect())
+}
+
+pub fn state_glyphs(cfg: &Config) -> Vec<StateGlyph> {
+    let mut rng = Rng::new(cfg.seed ^ 0xB17E);
+    let fixed: Vec<i32> = vec![
+        -2147483647, -2147483584, -1073741824, -100000, -1000, -129, -97, -96, -65, -64, -63, -33, -32, -31, -23, -22, -12,
+        -11, -1, 0, 1, 11, 12, 22, 23, 31, 32, 33, 45, 46, 63, 64, 65, 90, 96, 97, 129, 1000, 100000, 1073741824, 2147483000,
+    ];
+    let extra = if cfg.thorough() { 200 } else { 24 };
+    let mut out = vec![];
+    let mut add = |op: u8, sel: i32, rng: &mut Rng| {
+        let mut dists = fixed.clone();
+        for _ in 0..extra {
+            dists.push(match rng.below(4) {
+                0 => rng.range(-300, 300) as i32,
+                1 => rng.range(-70000, 70000) as i32,
+                2 => rng.range(-(1 << 30), 1 << 30) as i32,
+                _ => rng.range(-2147483584, 2147483584) as i32,
+            });
+        }
+        out.push(StateGlyph { op, sel, dists });
+    };
+    for op in [0x18u8, 0x19, 0x3D, 0x7D, 0x7C, 0x7A] {
+        add(op, 0, &mut rng);
+    }
+    for op in [0x76u8, 0x77] {
+        for sel in 0..256 {
+            add(op, sel, &mut rng);
+        }
+        // selectors beyond one byte: only the low byte matters
+        for sel in [256, 0x148, 0x7FFF, -1, -256, 65536 + 0x9D, i32::MAX, i32::MIN + 1] {
+            add(op, sel, &mut rng);
+        }
+    }
+    out
+}
+
+pub fn run(cfg: &Config, s: &mut Session) {
+    let glyphs = state_glyphs(cfg);
+    let data = build_font(&glyphs);
+    // the font for the whole-outline differential keeps to distances within ±2^30 (beyond that
+    // FreeType's 64-bit `long` and skrifa's i32 legitimately part ways; see Props/C03.lean)
+    let in_range: Vec<StateGlyph> = glyphs
+        .iter()
+        .map(|g| StateGlyph { op: g.op, sel: g.sel, dists: g.dists.iter().copied().filter(|d| *d >= -(1 << 30) && *d <= (1 << 30)).collect() })
+        .collect();
+    let data_in_range = build_font(&in_range);
+    // (2) whole-font differential needs a file (fauntlet::Font maps a path)
+    let dir = std::path::PathBuf::from(format!("/tmp/c03-synth-{}-{}", cfg.seed, std::process::id()));
+    let _ = std::fs::create_dir_all(&dir);
+    let path = dir.join("c03_round_states.ttf");
+    std::fs::write(&path, &data_in_range).unwrap();
+
+    let lib = freetype::Library::init().unwrap();
+    let face = lib.new_memory_face2(data.clone(), 0);
+    let Ok(mut face) = face else {
+        s.oracle("synthetic:freetype-opens-font", false, || "c03_round_states.ttf".into(), || "FT_New_Memory_Face failed".into());
+        return;
+    };
+    face.set_pixel_sizes(16, 16).unwrap();
+    for (i, g) in glyphs.iter().enumerate() {
+        let gid = i as u32 + 1;
+        let Some(ys) = freetype_points(&mut face, gid) else {
+            s.oracle("synthetic:freetype-loads-glyph", false, || format!("op={:#x} sel={}", g.op, g.sel), || "FT_Load_Glyph failed".into());
+            continue;
+        };
+        if ys.len() != g.dists.len() {
+            s.oracle("synthetic:point-count", false, || format!("op={:#x} sel={}", g.op, g.sel), || format!("{} vs {}", ys.len(), g.dists.len()));
+            continue;
+        }
+        for (&d, &y) in g.dists.iter().zip(ys.iter()) {
+            s.count(&format!("ft.ropsr:{:#x}", g.op));
+            s.case("ft.ropsr", format!("ft.ropsr {} {} {d}", g.op, g.sel), y.to_string());
+            // real skrifa handler vs real FreeType interpreter
+            let sk = catch(|| hr::round_ops(g.op, g.sel, d).map(|r| r.3));
+            let in_theorem_range = d >= -(1 << 30) && d <= (1 << 30);
+            if in_theorem_range {
+                s.oracle("kernel:ROUND[]==FreeType-interpreter", sk == Ok(Some(y as i32)) && y == y as i32 as i64,
+                    || format!("op={:#x} sel={} d={d}", g.op, g.sel), || format!("skrifa {sk:?} freetype {y}"));
+            } else {
+                s.count(if sk == Ok(Some(y as i32)) && y == y as i32 as i64 { "rops:out-of-range:equal" } else { "rops:out-of-range:differs" });
+            }
+        }
+    }
+    drop(face);
+    // (2) same font, every hinting mode, through the corpus differential
+    use fauntlet::{Hinting, HintingTarget::*};
+    let modes = [
+        None,
+        Some(Hinting::Interpreter(Mono)),
+        Some(Hinting::Interpreter(Normal)),
+        Some(Hinting::Interpreter(Light)),
+        Some(Hinting::Interpreter(Lcd)),
+        Some(Hinting::Interpreter(VerticalLcd)),
+    ];
+    crate::differential(cfg, s, &path, &[0, 16], &modes);
+    let _ = std::fs::remove_dir_all(&dir);
+}
